@@ -48,11 +48,13 @@ class Untranslatable(Exception):
 def coq_str(s: str) -> str:
     if not s:
         return "([] : str)"
+    if all(32 <= ord(c) < 127 and c not in '"\\' for c in s):
+        return f'(lit "{s}")'
     return "[" + "; ".join(str(ord(c)) for c in s) + "]"
 
 
 def coq_comment(s: str) -> str:
-    return s.replace("(*", "( *").replace("*)", "* )")
+    return s.replace("(*", "( *").replace("*)", "* )").replace('"', "'")
 
 
 def read_catalogue(tree, fname):
@@ -195,10 +197,35 @@ class FileScan:
             self.err(e, "'.type' of something that is not a loop variable over '.warnings'")
         self.err(e, f"{role} expression not understood")
 
+    def append_inspected(self, call):
+        """Is the node passed as append_to looked at (children / len / truthiness) later in the same
+        function?  Then whether the warning was appended can change what the code does next."""
+        tgt = self.kw(call, "append_to")
+        if tgt is None or (isinstance(tgt, ast.Constant) and tgt.value is None):
+            return False
+        key = ast.unparse(tgt)
+        _, fn = self.enclosing(call)
+        if fn is None:
+            return False
+        end = getattr(call, "end_lineno", call.lineno)
+        for n in ast.walk(fn):
+            if getattr(n, "lineno", 0) <= end:
+                continue
+            if isinstance(n, ast.Attribute) and n.attr == "children" and ast.unparse(n.value) == key:
+                return True
+            if isinstance(n, ast.Call) and isinstance(n.func, ast.Name) and n.func.id == "len" and n.args \
+                    and ast.unparse(n.args[0]) == key:
+                return True
+            if isinstance(n, ast.UnaryOp) and isinstance(n.op, ast.Not) and ast.unparse(n.operand) == key:
+                return True
+            if isinstance(n, (ast.If, ast.While, ast.IfExp)) and ast.unparse(n.test) == key:
+                return True
+        return False
+
     def result_use(self, call):
         p = self.parent.get(call)
         if isinstance(p, ast.Expr):
-            return ("Discard",)
+            return ("AppendInspected",) if self.append_inspected(call) else ("Discard",)
         if isinstance(p, ast.Return):
             return ("Return",)
         if isinstance(p, ast.Lambda) and p.body is call:
@@ -336,6 +363,7 @@ class FileScan:
                     if list(self.params_of(lam)) != ["wtype", "msg"] or sub[1] != "wtype":
                         self.err(n, "forwarding lambda does not have the (wtype, msg) signature")
                     note = "callback:merge_file_level"
+                    sub = ("Param", sub[1], "MystWarnings (callback of merge_file_level)")
                 self.add(n, "KCreate", ty, sub, self.result_use(n), note)
                 continue
             if isinstance(f, ast.Attribute) and f.attr == "create_warning":
@@ -351,7 +379,7 @@ class FileScan:
                 if not (isinstance(f.value, ast.Name) and f.value.id == "self"):
                     self.err(n, "receiver of .log_warning is not self")
                 sub = self.classify(self.arg(n, 2, "subtype"), n, "sub")
-                self.add(n, "KResolver", ("Lit", "myst"), sub, self.result_use(n))
+                self.add(n, "KResolver", ("Lit", "myst"), sub)
                 continue
             if isinstance(f, ast.Name) and f.id == "warning":
                 if not (fn is not None and isinstance(fn, ast.FunctionDef) and fn.name == "merge_file_level"
@@ -361,7 +389,7 @@ class FileScan:
                 if "MystWarnings" not in ann:
                     self.err(n, "merge_file_level's warning callback is not annotated with MystWarnings")
                 sub = self.classify(self.arg(n, 0, None), n, "sub")
-                self.add(n, "KCallback", ("Absent",), sub, self.result_use(n))
+                self.add(n, "KCallback", ("Absent",), sub)
                 continue
             if isinstance(f, ast.Name) and f.id == "ParseWarnings":
                 sub = self.arg(n, 2, "type")
@@ -382,7 +410,7 @@ class FileScan:
             recv = ast.unparse(f.value) if isinstance(f, ast.Attribute) else ""
             if isinstance(f, ast.Attribute) and (recv == "reporter" or recv.endswith(".reporter")):
                 if f.attr == "warning":
-                    self.add(n, "KReporterWarning", ("Absent",), ("Absent",), self.result_use(n))
+                    self.add(n, "KReporterWarning", ("Absent",), ("Absent",))
                 elif f.attr in REPORTER_OTHER:
                     self.add(n, "KReporterOther", ("Absent",), ("Absent",), note=f.attr)
                 else:
@@ -457,7 +485,8 @@ def sexpr(t, rec_default):
 
 
 def uexpr(u):
-    return {"Discard": "UDiscard", "Return": "UReturn", "InclOmit": "UInclOmit", "NA": "UNA"}.get(u[0], "UOther")
+    return {"Discard": "UDiscard", "Return": "UReturn", "InclOmit": "UInclOmit", "NA": "UNA",
+            "AppendInspected": "UAppendInspected"}.get(u[0], "UOther")
 
 
 def generate(repo: Path):
@@ -483,9 +512,9 @@ def generate(repo: Path):
         raise Untranslatable("parsers/directives.py (ParseWarnings) not found")
     sites.sort(key=lambda s: (s["file"], s["line"]))
     lines = ["(* GENERATED by gen/c14_warnings.py from myst_parser/**/*.py - do not edit. *)",
-             "From Coq Require Import List NArith Bool.",
-             "From MV Require Import Base.PyStr Cfg.WarnTypes.",
-             "Import ListNotations.", "Open Scope N_scope.", "",
+             "From Coq Require Import List NArith Bool String.",
+             "From MV Require Import Base.PyStr Cfg.StrLit Cfg.WarnTypes.",
+             "Import ListNotations.", "Open Scope N_scope.", "Open Scope string_scope.", "",
              "(* class MystWarnings(Enum): (NAME, value) *)",
              "Definition catalogue : list (str * str) := ["]
     lines.append(";\n".join(f"  ({coq_str(n)}, {coq_str(v)})  (* {n} = {v!r} *)" for n, v in cat))
